@@ -166,6 +166,11 @@ func dump(args []string) {
 		for i, a := range ev.Args {
 			fmt.Printf("   arg%d: %s\n", i, e.T.String(a))
 		}
+		if ev.Kind == "return" {
+			for _, a := range ev.Result {
+				fmt.Printf("   %s\n", e.T.String(a))
+			}
+		}
 		for _, at := range ev.Atoms {
 			fmt.Printf("   | %s\n", e.T.String(at))
 		}
